@@ -100,6 +100,7 @@ def judge_transfer(sc, lines_in, impl_out, allow_missing=None):
 
 class C01(PropBase):
     id = 'C01'
+    partial_passes = 0.25
     lean_modules = ['Isotp.Props.C01']
     theorems = []
     rule = ('two real layers with mirrored addresses (7 modes, asymmetric mixes, random ids/bytes/custom bases) joined by FIFO links; random '
